@@ -533,6 +533,53 @@ func (p *pool) rules(t *rapid.T) map[string]func(*rapid.T) {
 				x.m.RemoveRange(s, e-1)
 			}
 		},
+		"addManyComb": func(t *rapid.T) {
+			// one AddMany call that sprinkles many isolated values over a chunk (the last chunk the call touches)
+			x, k, ok := p.pickChunk(t)
+			if !ok {
+				t.Skip("no chunk")
+			}
+			step := uint64(rapid.IntRange(2, 9).Draw(t, "step"))
+			lo := k<<16 + gen.Low(t, "lo")
+			n := rapid.IntRange(1, 3000).Draw(t, "n")
+			var vals []uint32
+			if rapid.Bool().Draw(t, "otherChunkFirst") && k > 0 {
+				vals = append(vals, uint32((k-1)<<16+7))
+			}
+			for i, v := 0, lo; i < n && v <= k<<16+65535; i, v = i+1, v+step {
+				vals = append(vals, uint32(v))
+			}
+			p.log("#%d.AddMany(%d values from %d step %d)", x.id, len(vals), lo, step)
+			x.b.AddMany(vals)
+			x.m.AddValues32(vals)
+		},
+		"reAddRange": func(t *rapid.T) {
+			// AddRange over (a little more than) something that is already there: the cardinality barely moves
+			x, k, ok := p.pickChunk(t)
+			if !ok {
+				t.Skip("no chunk")
+			}
+			ivs := x.m.Window(k<<16, k<<16+65535).Intervals()
+			if len(ivs) == 0 {
+				t.Skip("chunk vanished")
+			}
+			i := rapid.IntRange(0, len(ivs)-1).Draw(t, "iv")
+			j := i + rapid.IntRange(0, 40).Draw(t, "span")
+			if j >= len(ivs) {
+				j = len(ivs) - 1
+			}
+			s, e := ivs[i].Lo, ivs[j].Hi+1
+			if d := uint64(rapid.IntRange(0, 2).Draw(t, "before")); s >= k<<16+d {
+				s -= d
+			}
+			e += uint64(rapid.IntRange(0, 2).Draw(t, "after"))
+			if e > model.Max32+1 {
+				e = model.Max32 + 1
+			}
+			p.log("#%d.AddRange(%d,%d)", x.id, s, e)
+			x.b.AddRange(s, e)
+			x.m.AddRange(s, e-1)
+		},
 		"tinyRanges": func(t *rapid.T) {
 			// many very short ranges, each landing in a chunk of its own (often a chunk that does not exist yet)
 			var x *member
